@@ -24,10 +24,12 @@ def specs_for(R, tier):
             for start in ((None, 0, 2) if tier == 'quick' and d == 3 else (None, 0, 1, 2)):
                 out.append({'sig': sig, 'start': start})
     out += algs.pqr_specs(4 if tier == 'quick' else 6)
-    extra_d = [(4, 12), (5, 4), (6, 2)] if tier == 'quick' else [(6, 40)]
+    extra_d = [(4, 12), (5, 4), (6, 2), (7, 4), (8, 2)] if tier == 'quick' else [(6, 40), (7, 30), (8, 12)]
     for d, n in extra_d:
         for _ in range(n):
             out.append({'sig': [rng.choice((1, -1, 0)) for _ in range(d)], 'start': rng.choice((None, 0, 1, 2))})
+    # lazily filled tables (d > 6) through the (p, q, r) form too: r = 0, 1 and > 1
+    out += [{'pqr': (5, 0, 2)}, {'pqr': (4, 2, 1)}, {'pqr': (7, 0, 0)}, {'pqr': (3, 3, 2)}]
     for nm in algs.NAMED:
         out.append({'fromname': nm})
     # custom bases: exhaustive d<=2, random above
@@ -139,7 +141,7 @@ def run(R, tier):
                 R.case((desc, 'signs', ci), sample={'algebra': desc, 'observation': f'{len(part)} sign-table entries'})
                 R.count('table_entries', len(part))
         else:
-            n = 60 if tier == 'quick' else 3000
+            n = 250 if tier == 'quick' else 4000
             part = []
             for _ in range(n):
                 I, J = rng.randrange(2 ** d), rng.randrange(2 ** d)
